@@ -75,8 +75,9 @@ func verifyFunction(P *Program, fn *ssa.Function, con *Contract, outDir string, 
 		rep.Used = append(rep.Used, k)
 	}
 	sort.Strings(rep.Used)
-	dir := filepath.Join(outDir, sanitizeFile(vc.fnName))
+	dir := uniquePath(outDir, sanitizeFile(vc.fnName), "")
 	os.MkdirAll(dir, 0o755)
+	assignStems(vc.obls)
 	results := make([]*Result, len(vc.obls))
 	var wg sync.WaitGroup
 	sem := make(chan struct{}, 6)
@@ -93,6 +94,41 @@ func verifyFunction(P *Program, fn *ssa.Function, con *Contract, outDir string, 
 	rep.Results = results
 	rep.Millis = time.Since(start).Milliseconds()
 	return rep
+}
+
+// assignStems gives every obligation of one function its own SMT file. sanitizeFile is not injective on obligation
+// names ("#c/2", the second conjunct of a clause, and "#c~2", the clause at a second site, both read "#c_2", and long
+// names are cut at 150 bytes); obligations of one function are solved concurrently, so two obligations sharing a file
+// would overwrite each other's query while the solvers read it. The stems are allocated in obligation order, before any
+// solver starts, so the names are the same on every run.
+func assignStems(obls []*Obligation) {
+	used := map[string]bool{}
+	for _, o := range obls {
+		stem := sanitizeFile(o.Name)
+		cand := stem
+		for k := 2; used[cand]; k++ {
+			cand = fmt.Sprintf("%s-%d", stem, k)
+		}
+		used[cand] = true
+		o.Stem = cand
+	}
+}
+
+var pathReg = struct {
+	sync.Mutex
+	used map[string]bool
+}{used: map[string]bool{}}
+
+// uniquePath returns dir/stem+ext, or dir/stem-k+ext when an earlier caller in this process already took the name.
+func uniquePath(dir, stem, ext string) string {
+	pathReg.Lock()
+	defer pathReg.Unlock()
+	cand := filepath.Join(dir, stem+ext)
+	for k := 2; pathReg.used[cand]; k++ {
+		cand = filepath.Join(dir, fmt.Sprintf("%s-%d%s", stem, k, ext))
+	}
+	pathReg.used[cand] = true
+	return cand
 }
 
 func (r *Result) ok() bool {
